@@ -162,6 +162,10 @@ def applyOp (s : WState) (name : String) (fs : List (String × String)) (lineNo 
         | .ok (_, w) => s.commit w c ["OBS ok"]
         | .error e => fail e
       | none => s.note s!"line {lineNo}: bad key"
+    | "sty" =>
+      match s.w.setType p ((fnat fs "ty").getD 0) c with
+      | .ok (w, c) => s.commit w c ["OBS ok"]
+      | .error e => fail e
     | "apop" =>
       match s.w.arrPop p c with
       | .ok (es, w, c) => s.commit w c ["OBS ok:" ++ "|".intercalate (es.map (s.renderOld s.w))]
